@@ -250,7 +250,7 @@ func H_Tamper() {
 	verif.Assert(err == nil, "marshal")
 	var st key_storage.Storage
 	verif.Assert(st.UnmarshalVT(data) == nil, "decode")
-	switch verif.Choose("corruption", 5) {
+	switch verif.Choose("corruption", 7) {
 	case 0:
 		verif.Case("encrypted key replaced by another slot's blob")
 		other := &keystorage.KeyStorage{}
@@ -272,6 +272,21 @@ func H_Tamper() {
 	case 4:
 		verif.Case("algorithm altered")
 		st.KeySlots["a"].Algorithm = 9
+	case 5:
+		verif.Case("integrity tag truncated or removed")
+		n := verif.Choose("tagLength", len(st.KeysHmacHash)) // 0 = the field is absent in the serialised form
+		st.KeysHmacHash = st.KeysHmacHash[:n]
+		if n == 0 {
+			st.KeysHmacHash = nil
+			verif.Cover("tag removed")
+		}
+	case 6:
+		verif.Case("slot removed behind the API")
+		if _, ok := st.KeySlots["b"]; !ok {
+			return
+		}
+		delete(st.KeySlots, "b")
+		verif.Cover("slot removed behind the API")
 	}
 	bad, err := st.MarshalVT()
 	verif.Assert(err == nil, "re-encode")
